@@ -10,7 +10,9 @@ META = {
         "machine/model/listeners; 0-3 per group) over external/self/internal/multi-event transitions, "
         "both engines and drivers; every callback begin is matched against the reference phase "
         "(validators, conditions, before, exit, on, enter, after) and its injected event/source/target/"
-        "state/current_state/model field. distinct_nontrivial = distinct (transition kind, populated-"
+        "state/current_state/model field. "
+        "every callback also compares event_data.state/source/target/event with the injected parameters; 20% alternative declaration styles, 20% callbacks behind a signature-preserving decorator. "
+        "distinct_nontrivial = distinct (transition kind, populated-"
         "group bitmap, provider mix, multi-event, engine) combinations observed with >=2 populated groups."
     ),
     "assumptions": [
